@@ -15,9 +15,11 @@ Theorem C16_source_operators :
   generic_cut_part_cmp = CNe /\ generic_cut_index_cmp = CLt /\ generic_cut_uses_take_while = false
   /\ sprs_take_while_cmp = CLt /\ sprs_filter_part_cmp = CNe /\ sprs_take_while_before_filter = true.
 Proof. exact (conj eq_refl (conj eq_refl (conj eq_refl (conj eq_refl (conj eq_refl eq_refl))))). Qed.
+Print Assumptions C16_source_operators.
 Theorem C16_source_shapes :
   forallb (fun b => b) (grid_iterator_shape ++ grid_index_shape ++ imbalance_shape) = true.
 Proof. exact eq_refl. Qed.
+Print Assumptions C16_source_shapes.
 
 (* the sparse-matrix specialisation (take_while on sorted rows) returns what the
    trait's default method returns, for every partition array (too short: both panic) *)
@@ -114,26 +116,31 @@ Theorem C16_adjacent_2d : forall x y x' y',
   adjacent_pos [x; y] [x'; y'] = true
   <-> (x = x' /\ (y + 1 = y' \/ y' + 1 = y))%nat \/ ((x + 1 = x' \/ x' + 1 = x) /\ y = y')%nat.
 Proof. exact adjacent_2d. Qed.
+Print Assumptions C16_adjacent_2d.
 Theorem C16_adjacent_3d : forall x y z x' y' z',
   adjacent_pos [x; y; z] [x'; y'; z'] = true
   <-> (x = x' /\ y = y' /\ (z + 1 = z' \/ z' + 1 = z))%nat
    \/ (x = x' /\ (y + 1 = y' \/ y' + 1 = y) /\ z = z')%nat
    \/ ((x + 1 = x' \/ x' + 1 = x) /\ y = y' /\ z = z')%nat.
 Proof. exact adjacent_3d. Qed.
+Print Assumptions C16_adjacent_3d.
 
 (* symmetric, duplicate-free *)
 Theorem C16_grid_neighbors_sym_2d : forall w h u v,
   (0 < w)%nat -> (0 < h)%nat -> (u < grid_len [w; h])%nat -> (v < grid_len [w; h])%nat ->
   (In u (grid_neighbors [w; h] v) <-> In v (grid_neighbors [w; h] u)).
 Proof. exact grid_neighbors_sym_2d. Qed.
+Print Assumptions C16_grid_neighbors_sym_2d.
 Theorem C16_grid_neighbors_sym_3d : forall w h d u v,
   (0 < w)%nat -> (0 < h)%nat -> (0 < d)%nat ->
   (u < grid_len [w; h; d])%nat -> (v < grid_len [w; h; d])%nat ->
   (In u (grid_neighbors [w; h; d] v) <-> In v (grid_neighbors [w; h; d] u)).
 Proof. exact grid_neighbors_sym_3d. Qed.
+Print Assumptions C16_grid_neighbors_sym_3d.
 Theorem C16_grid_neighbors_nodup_2d : forall w h v,
   (0 < w)%nat -> (0 < h)%nat -> (v < grid_len [w; h])%nat -> NoDup (grid_neighbors [w; h] v).
 Proof. exact grid_neighbors_nodup_2d. Qed.
+Print Assumptions C16_grid_neighbors_nodup_2d.
 Theorem C16_grid_neighbors_nodup_3d : forall w h d v,
   (0 < w)%nat -> (0 < h)%nat -> (0 < d)%nat -> (v < grid_len [w; h; d])%nat ->
   NoDup (grid_neighbors [w; h; d] v).
@@ -159,6 +166,7 @@ Theorem C16_grid_lambda_def_2d : forall w h p ws k,
   Forall (fun q => (q < k)%nat) p ->
   grid_lambda_cut [w; h] p ws = Ok (lambda_def k (grid_rows [w; h]) p ws).
 Proof. exact grid_lambda_def_2d. Qed.
+Print Assumptions C16_grid_lambda_def_2d.
 Theorem C16_grid_lambda_def_3d : forall w h d p ws k,
   (0 < w)%nat -> (0 < h)%nat -> (0 < d)%nat ->
   (grid_len [w; h; d] <= length p)%nat -> length ws = grid_len [w; h; d] ->
@@ -223,6 +231,7 @@ Print Assumptions C16_imbalance_real_is_max.
 
 Theorem C16_heaviest_part_exists : forall x r, In (list_max_Z x r) (x :: r).
 Proof. exact list_max_Z_in. Qed.
+Print Assumptions C16_heaviest_part_exists.
 
 Theorem C16_imbalance_zero_total : forall (k : nat) loads, sumZ loads = 0 -> (imbalance_Q k loads == 0)%Q.
 Proof. exact imbalance_Q_zero_total. Qed.
@@ -233,6 +242,7 @@ Theorem C16_imbalance_same_expression :
   imbalance_f64 = imbalance_expr SpecFloat.spec_float f64_of_Z f64_sub f64_div f64_is_zero flt f64_zero
   /\ imbalance_Q = imbalance_expr Q inject_Z Qminus Qdiv (fun q => Qeq_bool q 0) Qltb 0%Q.
 Proof. split; reflexivity. Qed.
+Print Assumptions C16_imbalance_same_expression.
 
 (* non-vacuity: a symmetric weighted triangle with a pendant vertex, 3 parts *)
 Example C16_nonvacuous_cut :
